@@ -978,8 +978,12 @@ fn judge(run: &Run, c: &Case) -> CaseResult {
         Ok(Ok(b)) => b,
         Ok(Err(e)) => {
             let sq = packets(&src).iter().any(|t| xml_props_flag(t, &mut Props::new()).unwrap_or(false));
+            // differential diagnosis for SVG: the same source without its UTF-8 byte order mark
+            let bom_only = c.kind == "svg" && src.starts_with(&[0xEF, 0xBB, 0xBF]) && matches!(vh::catch(|| sign_remote(mime, &src[3..], &u, !c.embed)), Ok(Ok(_)));
             let sig = if sq && matches!(e, c2pa::Error::XmpReadError(_)) {
                 "C30:embed-fails:single-quoted-attr-containing-dquote".to_string()
+            } else if bom_only {
+                format!("C30:embed-fails:svg-with-utf8-bom:{}", if c.embed { "embedded+remote" } else { "remote-only" })
             } else {
                 format!("C30:sign-failed:{}:{fam}:{}", err_kind(&e), c.xmp)
             };
@@ -1035,6 +1039,50 @@ fn judge(run: &Run, c: &Case) -> CaseResult {
                 fails.push(Fail::new(sig, format!("reader reports RemoteManifestUrl({x:?}); {desc}")));
             }
             Err(s) => fails.push(Fail::new(format!("C30:url-not-reported:{s}:{fam}:{}", c.xmp), format!("read gives {s} instead of RemoteManifestUrl; {desc}"))),
+        }
+    }
+
+    // (recorded, not judged: the property speaks about the URL and the XMP properties only) is the rest of the asset
+    // still what it was? Units of the independent walker that hold XMP are left out; the old units must appear in
+    // the same order among the new ones.
+    {
+        let is_xmp_unit = |name: &str, bytes: &[u8]| {
+            name.contains(":tag700:") || find(bytes, b"<x:xmpmeta").is_some() || find(bytes, b"<?xpacket").is_some() || find(bytes, b"XMP DataXMP").is_some() || bytes.starts_with(b"XMP\0")
+        };
+        match (vh::catch(|| vh::walk::media_content_normalised(&c.kind, &src)), vh::catch(|| vh::walk::media_content_normalised(&c.kind, &signed))) {
+            (Ok(Ok(old)), Ok(Ok(new))) => {
+                let new: Vec<&(String, Vec<u8>)> = new.iter().filter(|(n, b)| !is_xmp_unit(n, b)).collect();
+                let mut at = 0;
+                let mut lost: Option<String> = None;
+                for (n, b) in old.iter().filter(|(n, b)| !is_xmp_unit(n, b)) {
+                    match new[at..].iter().position(|x| x.0 == *n && x.1 == *b) {
+                        Some(k) => at += k + 1,
+                        None => {
+                            lost = Some(n.clone());
+                            break;
+                        }
+                    }
+                }
+                match lost {
+                    None => run.count(&format!("media(recorded):{fam}:unchanged")),
+                    Some(n) => {
+                        let n: String = n.chars().take(24).collect();
+                        let cl = format!("media(recorded):{fam}:changed:{n}");
+                        if run.hist_get(&cl) == 0 {
+                            run.note(format!("media content changed (recorded only): unit {n}; {desc}"));
+                        }
+                        run.count(&cl);
+                    }
+                }
+            }
+            (Ok(Ok(_)), _) => {
+                let cl = format!("media(recorded):{fam}:signed-asset-not-walkable");
+                if run.hist_get(&cl) == 0 {
+                    run.note(format!("signed asset not walkable by the independent walker (recorded only); {desc}"));
+                }
+                run.count(&cl);
+            }
+            _ => run.count(&format!("media(recorded):{fam}:source-not-walkable")),
         }
     }
 
